@@ -57,6 +57,8 @@ pub struct RigCfg {
     pub max_batch_delay: u64,
     pub key_seed: u8,
     pub tag: String,
+    /// capacity of the channel on which a node hands committed blocks to the application (the harness reads it between handler runs)
+    pub commit_capacity: usize,
 }
 
 impl RigCfg {
@@ -72,6 +74,7 @@ impl RigCfg {
             max_batch_delay: 100,
             key_seed: 0,
             tag: format!("{}", std::process::id()),
+            commit_capacity: std::env::var("HSVERIF_COMMIT_CAP").ok().and_then(|x| x.parse().ok()).unwrap_or(10_000),
         }
     }
 }
@@ -141,6 +144,8 @@ pub struct Rig {
     pub panics: Vec<String>,
     pending_qc: HashMap<(usize, Digest), VecDeque<bool>>,
     pending_sig: HashMap<(usize, Digest, PublicKey), VecDeque<bool>>,
+    /// proposals a real node broadcast itself whose QC is neither the genesis QC nor a certificate that verifies (judged here, outside the node)
+    own_bad_qc: Vec<(usize, Digest)>,
 }
 
 pub fn port_of(addr: &SocketAddr) -> (usize, Port) {
@@ -360,6 +365,7 @@ impl Rig {
             panics: Vec::new(),
             pending_qc: HashMap::new(),
             pending_sig: HashMap::new(),
+            own_bad_qc: Vec::new(),
         };
         for i in 0..rig.cfg.n {
             if rig.cfg.real[i] {
@@ -414,7 +420,7 @@ impl Rig {
             let sig = SignatureService::new(sk);
             let (tx_c2m, mut rx_c2m) = channel::<ConsensusMempoolMessage>(1000);
             let (tx_m2c, rx_m2c) = channel::<Digest>(1000);
-            let (tx_commit, rx_commit) = channel(10_000);
+            let (tx_commit, rx_commit) = channel(cfg.commit_capacity.max(1));
             if cfg.with_mempool {
                 let mp = MParameters {
                     gc_depth: 50,
@@ -518,6 +524,17 @@ impl Rig {
                                 data: f.freeze(),
                             };
                             self.next_frame += 1;
+                            if fr.port == Port::Consensus {
+                                if let Ok(ConsensusMessage::Propose(b)) = bincode::deserialize::<ConsensusMessage>(&fr.data) {
+                                    if b.author == self.keys[fr.from].0 {
+                                        let genesis = b.qc.hash == Digest::default() && b.qc.round == 0 && b.qc.votes.is_empty();
+                                        let d = b.digest();
+                                        if !genesis && b.qc.verify(&self.committee).is_err() && !self.own_bad_qc.iter().any(|(n, x)| *n == fr.from && *x == d) {
+                                            self.own_bad_qc.push((fr.from, d));
+                                        }
+                                    }
+                                }
+                            }
                             self.inflight.push_back(fr);
                             progress = true;
                         }
@@ -1152,6 +1169,19 @@ impl Rig {
         v.extend(self.events.iter().cloned());
         // the receiver's side of the reliable sender's contract, per connection into a real node: one reply per frame that must be
         // acknowledged, none for the others (connections that broke, were cut, or lead to a crashed node make no statement)
+        // C05: a node's own proposal loops back into process_block without passing Block::verify -- its certificate is judged here
+        for (i, d) in &self.own_bad_qc {
+            if let Some(id) = self.dict.id_of_digest(d) {
+                v.push(json!({"t":"rig","k":"OwnProposalBadQC","node":i,"blk":id}));
+            }
+        }
+        // what each real node handed to the application on its commit channel (the hook's Commit events are emitted before the hand-over)
+        for i in 0..self.cfg.n {
+            if self.nodes.get(i).and_then(|x| x.as_ref()).is_some() {
+                let ids: Vec<i64> = self.delivered[i].iter().map(|b| self.dict.id_of_digest(&b.digest()).map(|x| x as i64).unwrap_or(-1)).collect();
+                v.push(json!({"t":"rig","k":"CommitChannel","node":i,"blocks":ids}));
+            }
+        }
         for (ci, c) in self.conns.iter().enumerate() {
             if c.ackable + c.silent == 0 || c.broken || c.to_dest.is_none() {
                 continue;
